@@ -33,6 +33,7 @@ type Violation struct {
 	Trail   []int
 	Notes   []string
 	Inputs  map[string]interface{}
+	Hang    bool // an unwinding bound was exceeded: a candidate non-termination, reported only if the real binary hangs too
 }
 
 type Stats struct {
